@@ -378,6 +378,7 @@ def rule_pa_litorder(cx, rep, port):
     mod = cx.engine_mod(port)
     ssl = p.func(mod, 'separate_string_literals')
     param = ssl.args.args[0].arg
+    lm = _literals_model(cx, port)
     reps = [c for c in walk_no_nested(ssl) if isinstance(c, ast.Call) and isinstance(c.func, ast.Attribute) and c.func.attr == 'replace']
     def extracts(c):
         # param.replace(<the literal pattern>, <function>): the extraction itself, written as a substitution with a callback
@@ -390,7 +391,9 @@ def rule_pa_litorder(cx, rep, port):
         return isinstance(pat_, str) and '"' in pat_ and "'" in pat_ and not isinstance(c.args[1], ast.Constant)
     bad = [c for c in reps if is_name(c.func.value, param) and not extracts(c)]
     good = [c for c in reps if not is_name(c.func.value, param)]
-    if bad:
+    if lm is not None:
+        rep.decide(lm == '', 'tab rewrite', ssl, 'tab -> space is applied to the literal-free text only (separate_string_literals evaluated on query texts with tabs inside and outside literals)', lm)
+    elif bad:
         rep.violated('tab rewrite', bad[0], 'characters are rewritten in the raw query text before the string literals are extracted: tabs inside literals are changed')
     elif len(good) == 1:
         rep.holds('tab rewrite', good[0], 'tab -> space is applied to the literal-free text only')
@@ -418,7 +421,69 @@ def rule_pa_litorder(cx, rep, port):
     calls = [(c.lineno, call_name(c)) for c in walk_no_nested(sp) if isinstance(c, ast.Call) and call_name(c) in ('cleanup_query', 'separate_string_literals', 'separate_actions', 'remove_redundant_input_table_name', 'remove_redundant_table_name')]
     order = [n for _, n in sorted(calls)]
     rep.decide(order[:2] == ['cleanup_query', 'separate_string_literals'] and order[-1] == 'separate_actions', 'parser order', sp, 'cleanup -> literal extraction -> (redundant table name removal) -> clause separation', 'parser stages run in the order {}'.format(order))
-    _literal_markers(rep, p, mod, ssl)
+    if lm is not None:
+        rep.decide(lm == '', 'literal ids', ssl, 'literal i is replaced by marker i and re-inserted from position i (extraction and re-insertion evaluated on six query texts)', lm)
+    else:
+        _literal_markers(rep, p, mod, ssl)
+
+
+def _literals_model(cx, port):
+    """separate_string_literals evaluated on six query texts (a tab inside and outside a literal, adjacent literals, an escaped quote, `$`
+    sequences, an empty literal, JS: a backtick literal), and combine_string_literals applied to its result: the literals are listed
+    in order of appearance with their quotes, each replaced by the marker that carries its list position, tabs outside literals
+    become blanks, and re-insertion gives back the text (with those blanks).  '' / problem / None (outside the interpreter)"""
+    memo = '_literals_model_' + port
+    if hasattr(cx, memo):
+        return getattr(cx, memo)
+    from .. import absexec as AX
+    p = cx.port(port)
+    mod = cx.engine_mod(port)
+    res = None
+    try:
+        ssl = p.func(mod, 'separate_string_literals')
+        cb = p.func(mod, 'combine_string_literals')
+        M = '___RBQL_STRING_LITERAL{}___'
+        cases = [("select 'a\tb', \"c\" where\tx", ["'a\tb'", '"c"'], 'select {}, {} where x'.format(M.format(0), M.format(1))),
+                 ("x\t", [], 'x '),
+                 ("'p'+'q'+\"r\"", ["'p'", "'q'", '"r"'], '{}+{}+{}'.format(M.format(0), M.format(1), M.format(2))),
+                 ("'it\\'s' a1", ["'it\\'s'"], '{} a1'.format(M.format(0))),
+                 ("'$1' || \"$&\" || '\\\\1'", ["'$1'", '"$&"', "'\\\\1'"], '{} || {} || {}'.format(M.format(0), M.format(1), M.format(2))),
+                 ("a1 == ''", ["''"], 'a1 == {}'.format(M.format(0)))]
+        if port == 'js':
+            cases.append(("`t1` + 'u'", ['`t1`', "'u'"], '{} + {}'.format(M.format(0), M.format(1))))
+        out = ''
+        for text, want_lits, want_fmt in cases:
+            runs, cut = AX.Explorer(p, mod, max_choices=1).explore(ssl, [text])
+            if cut or len(runs) != 1 or runs[0].outcome[0] != 'return':
+                raise Undecided('separate_string_literals does not return for {!r}'.format(text), ssl)
+            v = runs[0].outcome[1]
+            if not (isinstance(v, (list, tuple)) and len(v) == 2 and isinstance(v[0], str) and isinstance(v[1], list)):
+                raise Undecided('separate_string_literals result {!r}'.format(v), ssl)
+            fmt, lits = v
+            if lits != want_lits and not out:
+                out = 'for the query text {!r} the literals set aside are {!r} instead of {!r}'.format(text, lits, want_lits)
+            elif fmt != want_fmt and not out:
+                out = 'for the query text {!r} the literal-free text is {!r} instead of {!r} (each literal replaced by the marker with its list position; tabs outside literals become blanks)'.format(text, fmt, want_fmt)
+            runs2, cut2 = AX.Explorer(p, mod, max_choices=1).explore(cb, [fmt, list(lits)])
+            if cut2 or len(runs2) != 1 or runs2[0].outcome[0] != 'return' or not isinstance(runs2[0].outcome[1], str):
+                raise Undecided('combine_string_literals does not return a text', cb)
+            back = runs2[0].outcome[1]
+            if back != text.replace('\t', ' ') and not (back == text) and not out:
+                # tabs inside literals survive the round trip, tabs outside have become blanks
+                want_back = ''
+                rest, k = want_fmt, 0
+                for i_, l_ in enumerate(want_lits):
+                    rest = rest.replace(M.format(i_), l_, 1)
+                if back != rest:
+                    out = 'for the query text {!r} re-inserting the literals gives {!r} instead of {!r}'.format(text, back, rest)
+        res = out
+    except (Undecided, AX.Cut, AX._NeedChoice, AX.Raised, KeyError, IndexError, TypeError, AttributeError, ValueError) as e_:
+        import os
+        if os.environ.get('RBQL_VERIF_DEBUG'):
+            print('literals model gave up:', type(e_).__name__, str(e_)[:200])
+        res = None
+    setattr(cx, memo, res)
+    return res
 
 
 def marker_template(e):
@@ -1363,6 +1428,8 @@ def rule_pa_subst(cx, rep, port):
                 rep.holds('{}: replacement `{}`'.format(where, node_text(repl, 40)), c, 'constant template or function')
             elif tab_vals is not None and all(isinstance(v_, ast.Constant) and isinstance(v_.value, str) for v_ in tab_vals):
                 rep.holds('{}: replacement `{}`'.format(where, node_text(repl, 40)), c, 'one of {} constant templates of a constant table'.format(len(tab_vals)))
+            elif fd is not None and fd.name == 'separate_string_literals' and _literals_model(cx, port) == '':
+                rep.holds('{}: replacement `{}`'.format(where, node_text(repl, 40)), c, 'what the extraction substitutes is decided by PA-LITORDER (the function evaluated on query texts)')
             elif fd is None or not _expr_tainted(repl, _local_taint(fd, {a.arg for a in fd.args.args})):
                 rep.undecided('{}: replacement `{}`'.format(where, node_text(repl, 40)), c, 'non-constant replacement template that does not derive from a parameter: its content is not analysed')
             else:
